@@ -208,6 +208,58 @@ fn all_answers_full(fx: &Fx, thread: &str, light: bool, max_anchors: usize, repl
     out
 }
 
+/// The read part of the capabilities that also write: the rotation target of
+/// `provider_cursor_rotate_v1` and the cut that branch / handoff resolve. They append (branch and
+/// handoff to a NEW thread, a successful rotation to this one), so they run on a store of their
+/// own, the only rotation that can append last. Minted ids are replaced by presence flags.
+fn resolution_answers(fx: &Fx, thread: &str, cacheless: bool) -> Vec<(String, Value)> {
+    let store = fx.store();
+    let pre = || {
+        if let Some(t) = TICK.with(|t| t.get()) {
+            t();
+        }
+        if cacheless {
+            fx.drop_caches();
+        }
+    };
+    let events = fx.truth(rip_kernel::StreamKind::Continuity, thread);
+    let msgs: Vec<String> = events.iter().filter(|e| crate::fixture::is_message(e)).map(|e| e.id.clone()).collect();
+    let cut = |r: Result<(String, u64, Option<String>), String>| match r {
+        Ok((_child, seq, mid)) => json!({"ok": {"cut_seq": seq, "cut_message_id": mid}}),
+        Err(e) => json!({"err": e}),
+    };
+    let rot = |r: Result<ripd::ProviderCursorRotateV1Response, String>| match r {
+        Ok(r) => json!({"ok": {"rotated": r.rotated, "provider": r.provider, "endpoint": r.endpoint, "model": r.model, "cursor_event": r.cursor_event_id.is_some()}}),
+        Err(e) => json!({"err": e}),
+    };
+    let req = |provider: Option<&str>| ripd::ProviderCursorRotateV1Request { provider: provider.map(|s| s.to_string()), endpoint: None, model: None, reason: Some("r".into()), actor_id: "u".into(), origin: "o".into() };
+    let mut out: Vec<(String, Value)> = Vec::new();
+    pre();
+    out.push(("rotation_target(no_such_provider)".into(), rot(store.provider_cursor_rotate_v1(thread, req(Some("no-such-provider"))))));
+    pre();
+    out.push(("branch_cut(head)".into(), cut(store.branch(thread, None, None, None, "u".into(), "o".into()))));
+    if let Some(first) = msgs.first() {
+        pre();
+        out.push(("branch_cut(first_message)".into(), cut(store.branch(thread, None, Some(first.clone()), None, "u".into(), "o".into()))));
+        pre();
+        out.push(("handoff_cut(first_message)".into(), cut(store.handoff(thread, None, (Some("s".into()), None), Some(first.clone()), None, ("u".into(), "o".into())))));
+    }
+    if let Some(last) = msgs.last() {
+        pre();
+        out.push(("branch_cut(last_message)".into(), cut(store.branch(thread, None, Some(last.clone()), None, "u".into(), "o".into()))));
+    }
+    let head = events.last().map(|e| e.seq).unwrap_or(0);
+    for (label, seq) in [("mid", head / 2), ("head", head), ("beyond_head", head + 1)] {
+        pre();
+        out.push((format!("branch_cut(from_seq={label})"), cut(store.branch(thread, None, None, Some(seq), "u".into(), "o".into()))));
+    }
+    pre();
+    out.push(("handoff_cut(head)".into(), cut(store.handoff(thread, None, (Some("s".into()), None), None, None, ("u".into(), "o".into())))));
+    pre();
+    out.push(("rotation_target(any)".into(), rot(store.provider_cursor_rotate_v1(thread, req(None)))));
+    out
+}
+
 #[derive(Clone, Debug)]
 enum Fault {
     Delete,
@@ -444,9 +496,18 @@ fn check_history(report: &Report, rt: &std::sync::Arc<tokio::runtime::Runtime>, 
     report.eval(Some(&(&hist_names, "none", "restart")));
     compare(report, hist, &json!({"file": "none", "fault": "none"}), "restarted_authority", &tail, &found, &truth);
     drop(re);
-    if heavy {
-        // window-crossing threads: delete-only faults on every file (each copy is expensive)
-    }
+    // the capabilities that also write (rotation target, branch / handoff cut): truth once per
+    // history on a cache-less copy, then a restarted authority with every cache in place
+    announce(json!({"t": "begin", "what": "resolution_truth", "history": hist_names}));
+    let res_truth_fx = fx.copy(false);
+    let res_truth = resolution_answers(&res_truth_fx, &thread, true);
+    drop(res_truth_fx);
+    announce(json!({"t": "begin", "what": "resolution_no_fault", "history": hist_names}));
+    let re = fx.copy(true);
+    let found = resolution_answers(&re, &thread, false);
+    report.eval(Some(&(&hist_names, "none", "resolution")));
+    compare(report, hist, &json!({"file": "none", "fault": "none"}), "restarted_authority", &tail, &found, &res_truth);
+    drop(re);
     let files: Vec<String> = snapshots.last().map(|s| s.keys().cloned().collect()).unwrap_or_default();
     let mut faults: Vec<Fault> = vec![Fault::Delete, Fault::Truncate0, Fault::Truncate1, Fault::TruncateMidLast, Fault::TruncateLastLine, Fault::TruncateHalf, Fault::DropFirstLine, Fault::Garbage];
     for j in 0..hist.len().saturating_sub(1) {
@@ -536,6 +597,32 @@ fn check_history(report: &Report, rt: &std::sync::Arc<tokio::runtime::Runtime>, 
             let kinds = compare(report, hist, &desc, "after_fault", &tail, &found, &truth);
             single_diffs.insert((set[0].0.clone(), fault_name(&set[0].1), "after_fault"), kinds);
         }
+        // quick tier, histories of 3 ops: the two extra phases (resolution, append first) only for the
+        // faults that leave a well-formed file (the others are rejected on sight; covered at <= 2 ops)
+        let well_formed = set.iter().all(|(_, f)| matches!(f, Fault::Delete | Fault::TruncateLastLine | Fault::DropFirstLine | Fault::Rollback(_)));
+        let extra_phases = !light || hist.len() != 3 || well_formed;
+        // rotation target and branch / handoff cuts as the first calls on a fresh faulted copy
+        if extra_phases {
+            announce(json!({"t": "begin", "what": "fault+resolution", "history": hist_names, "fault": desc}));
+            let dir = crate::common::scratch_dir("c04r");
+            let data = dir.path().join("data");
+            let root = dir.path().join("ws");
+            let _ = crate::common::copy_dir(&fx.data, &data);
+            let _ = crate::common::copy_dir(&fx.root, &root);
+            for (file, fault) in &set {
+                apply_fault(&data.join("continuity_streams").join(file), fault, &snapshots);
+            }
+            let rfx = Fx::open(dir, data, root, rt.clone());
+            let found = resolution_answers(&rfx, &thread, false);
+            report.eval(Some(&(&hist_names, desc.to_string(), "resolution")));
+            report.count("resolution_cases", 1);
+            if set.len() > 1 {
+                compare_attr(report, hist, &desc, "after_fault", &tail, &found, &res_truth, Some(&attributed(&single_diffs, "resolution")));
+            } else {
+                let kinds = compare(report, hist, &desc, "after_fault", &tail, &found, &res_truth);
+                single_diffs.insert((set[0].0.clone(), fault_name(&set[0].1), "resolution"), kinds);
+            }
+        }
         if heavy {
             continue;
         }
@@ -568,6 +655,9 @@ fn check_history(report: &Report, rt: &std::sync::Arc<tokio::runtime::Runtime>, 
             single_diffs.insert((set[0].0.clone(), fault_name(&set[0].1), "after_fault_and_append"), kinds);
         }
         drop(faulted);
+        if !extra_phases {
+            continue;
+        }
         // the other order: the append is the FIRST thing the fresh authority does on the faulted
         // store (no read has had a chance to repair or warm anything), then the queries
         announce(json!({"t": "begin", "what": "fault+append_first", "history": hist_names, "fault": desc}));
